@@ -214,10 +214,17 @@ def run_track(case, ctx) -> None:
         torch._dynamo.utils.counters.clear()
         ins_t = [t.detach().clone() for t in inputs]
         ins_o = [t.detach().clone().requires_grad_(True) if t.is_floating_point() else t.clone() for t in inputs]
+        # forward-only runs: half of them under torch.no_grad() (how scales of a trained model are usually inspected)
+        no_grad = (not case["backward"]) and case["seed"] % 2 == 0
         try:
-            out_t = tm(*ins_t)
+            if no_grad:
+                with torch.no_grad():
+                    out_t = tm(*ins_t)
+                ctx.count("form:forward-only-run-under-no_grad")
+            else:
+                out_t = tm(*ins_t)
         except Exception as e:
-            ctx.violation(f"{key}:tracked-module-raises:{exc_key(e)}", repr(e), source=src)
+            ctx.violation(f"{key}:tracked-module-raises:{exc_key(e)}" + (":under-no_grad" if no_grad else ""), repr(e), source=src)
             return
     finally:
         T.ScaleTrackingBackend.__call__ = orig_call
@@ -226,11 +233,31 @@ def run_track(case, ctx) -> None:
         ctx.skip("graph break")
         return
     outs_t = list(out_t) if isinstance(out_t, (tuple, list)) else [out_t]
-    out_o = m(*ins_o)
+    if no_grad:
+        with torch.no_grad():
+            out_o = m(*ins_o)
+    else:
+        out_o = m(*ins_o)
     outs_o = list(out_o) if isinstance(out_o, (tuple, list)) else [out_o]
     ctx.count("tracked:bit-compared")
     if len(outs_t) != len(outs_o) or any(not bits_equal(a.detach(), b.detach()) for a, b in zip(outs_t, outs_o)):
-        ctx.violation(f"{key}:tracked-output-differs-from-untracked", "track_scales changed the forward values", source=src)
+        why = ""
+        if no_grad and len(outs_t) == len(outs_o):
+            # Mechanism test: under no_grad the tracking nodes hand grad-free clones of the parameters to the ops, and PyTorch
+            # itself picks another kernel for e.g. F.linear(x, W, b) when W / b do not require grad (rounding-level difference,
+            # reproducible without the library). If the PLAIN module with its parameters frozen reproduces the tracked output bit
+            # for bit, the difference is exactly that and nothing else.
+            import copy
+            mf = copy.deepcopy(m)
+            for p_ in mf.parameters():
+                p_.requires_grad_(False)
+            with torch.no_grad():
+                out_f = mf(*[t.detach().clone() for t in inputs])
+            outs_f = list(out_f) if isinstance(out_f, (tuple, list)) else [out_f]
+            rel = max(float((a.detach() - b.detach()).abs().max()) / max(float(b.detach().abs().max()), 1e-30) for a, b in zip(outs_t, outs_o))
+            if rel <= 1e-5 and len(outs_f) == len(outs_t) and all(bits_equal(a.detach(), b.detach()) for a, b in zip(outs_t, outs_f)):
+                why = ":rounding-level:no_grad-run-equals-the-module-with-grad-free-parameters"
+        ctx.violation(f"{key}:tracked-output-differs-from-untracked{why}", "track_scales changed the forward values", source=src)
         return
     g = torch.Generator().manual_seed(case["seed"] + 9)
     ups = [torch.randn(y.shape, generator=g, dtype=y.dtype) for y in outs_o]
@@ -282,7 +309,11 @@ def run_track(case, ctx) -> None:
     gm = captured["gm"]
     cap = make_capture_interpreter()(gm)
     try:
-        out_c = cap.run(*captured["args"])
+        if no_grad:
+            with torch.no_grad():
+                out_c = cap.run(*captured["args"])
+        else:
+            out_c = cap.run(*captured["args"])
     except Exception as e:
         ctx.count("harness_error")
         ctx.note("capture interpreter failed: " + repr(e))
